@@ -1,11 +1,15 @@
 package engine
 
 import (
+	"go/ast"
+	"go/parser"
+	"go/token"
 	"reflect"
 	"strings"
 
 	"github.com/uber-go/gopatch/internal/data"
 
+	"github.com/uber-go/gopatch/internal/parse"
 	"github.com/uber-go/gopatch/internal/zzverif/nd"
 )
 
@@ -174,4 +178,57 @@ func c08OnlyGoNodes(v reflect.Value, depth int) bool {
 		}
 	}
 	return true
+}
+
+// Elisions on the '+' side in positions where nothing can be reproduced for
+// them (not a list element, not a for header).
+var c08PlusDots = []struct{ name, patch, src string }{
+	{"binary-operand", "@@\nvar x expression\n@@\n-foo(x)\n+bar(x + ...)\n", "package p\n\nvar a = foo(q)\n"},
+	{"switch-tag", "@@\nvar x expression\n@@\n-foo(x)\n+switch ... {\n+}\n", "package p\n\nfunc f() {\n\tfoo(q)\n}\n"},
+	{"slice-bound", "@@\nvar x expression\n@@\n-foo(x)\n+x[...:]\n", "package p\n\nvar a = foo(q)\n"},
+	{"key-value", "@@\nvar x expression\n@@\n-foo(x)\n+T{K: ...}\n", "package p\n\nvar a = foo(q)\n"},
+	{"for-clause-cond", "@@\nvar x expression\n@@\n-foo(x)\n+for i := 0; ...; i++ {\n+}\n", "package p\n\nfunc f() {\n\tfoo(q)\n}\n"},
+	{"labelled", "@@\nvar x expression\n@@\n-foo(x)\n+L: ...\n", "package p\n\nfunc f() {\n\tfoo(q)\n}\n"},
+	{"call-arguments-control", "@@\nvar x expression\n@@\n-foo(x, ...)\n+bar(..., x)\n", "package p\n\nvar a = foo(q)\n"},
+}
+
+// VerifC08PlusDots: such a patch is rejected when loaded, or fails when
+// applied; it never panics and never puts a pattern-only node into the file.
+func VerifC08PlusDots() {
+	c := c08PlusDots[nd.Choose("case", len(c08PlusDots))]
+	fset := token.NewFileSet()
+	pp, err := parse.Parse(fset, "p.patch", []byte(c.patch))
+	if err != nil {
+		nd.Reach("rejected")
+		return
+	}
+	prog, err := Compile(fset, pp)
+	if err != nil {
+		nd.Reach("rejected")
+		return
+	}
+	file, err := parser.ParseFile(fset, "a.go", c.src, parser.ParseComments)
+	if err != nil {
+		panic("harness: " + err.Error())
+	}
+	name := nd.Str("arg", 1)
+	nd.Assume(nd.And(name[0] >= 'a', name[0] <= 'z'))
+	ast.Inspect(file, func(n ast.Node) bool {
+		if id, ok := n.(*ast.Ident); ok && id.Name == "q" {
+			id.Name = name
+		}
+		return true
+	})
+	ch := prog.Changes[0]
+	d, ok := ch.Match(file)
+	nd.Assert(ok, c.name+": foo(q) not matched")
+	if !ok {
+		return
+	}
+	out, rerr := ch.Replace(d, NewChangelog())
+	nd.Assert((out == nil) != (rerr == nil), c.name+": Replace must return a file or an error")
+	if out != nil {
+		nd.Assert(c08OnlyGoNodes(reflect.ValueOf(out), 0), c.name+": a '...' of the '+' side that stands in no list leaked into the rewritten file as a pattern-only node; go/printer and ast.Walk panic on it")
+		nd.Reach("applied")
+	}
 }
